@@ -152,7 +152,10 @@ SHORT_ALPHA = ("a", ".", "/", ":", "[", "]", "@", "?", "#", " ", "%", "℀")
 ODD_STRINGS = ["[", "]", "http://[", "http://[::1", "http://a.com℀/", "http://a.com:99999/", "//", "://", "http://", "http:///",
                "mailto:a@b.c", "javascript:void(0)", "\x00", "é", "   ", "\n", "http://[::1]/", "a" * 300, "http://a.com/" + "x/" * 200,
                "?", "#", "http://#", "http://?", "%", "%zz", "http://%", "http://a.com/%", "a.com", "http://a.com/p?q#f", "/", "/a/b",
-               "?v=1", "#!/a", "www", "localhost", "127.0.0.1/watch?v=" + ID11, "http://user@/", "http://:80/", "℀", "http://é.com/é"]
+               "?v=1", "#!/a", "www", "localhost",
+               # nesting deeper than the interpreter allows nested calls (fragment routing, redirection parameters)
+               "twitter.com/" + "#!" * 3000, "https://twitter.com/" + "#!" * 3000 + "/user/status/1", "youtube.com/redirect?q=" * 1500 + "x", "t.me/" + "s/" * 3000,
+               "facebook.com/l.php?u=" * 1500 + "x", "#!" * 5000, "127.0.0.1/watch?v=" + ID11, "http://user@/", "http://:80/", "℀", "http://é.com/é"]
 EXTRA_SEGMENTS = ["a%26b", "a%2Fb", "a%23b", "a%20b", "%", "..", ".", "é", "a b", "[", "x" * 70, "-", "_", "0"]
 EXTRA_QITEMS = ["v=a%26b", "v=a%23b", "id=a%20b", "list=a%26b", "fbid=%31", "=", "&", "a=b=c", "%", "é=é", "amp;id=1"]
 SPLICE = ["[", "]", "%", "%2F", "%00", "℀", " ", "\t", "#", "?", "//", ":", "@", "é", "\\", "&amp;"]
